@@ -73,11 +73,12 @@ type aScenario struct {
 }
 
 type aOpts struct {
-	NoTest     bool                   // drop test-recording requests
-	NoCont     bool                   // run without the continuous recorder
-	NoThrottle bool                   // run without the throttle even if configured
-	SkipEv     int                    // index of an event to leave out (-1 none)
-	After      func(i int, w *aWorld) // called after every executed event with its trace index (in-package observations)
+	NoTest            bool                   // drop test-recording requests
+	NoCont            bool                   // run without the continuous recorder
+	NoThrottle        bool                   // run without the throttle even if configured
+	SkipEv            int                    // index of an event to leave out (-1 none)
+	After             func(i int, w *aWorld) // called after every executed event with its trace index (in-package observations)
+	AllowProcessFrame bool                   // the unit only looks at the motion sink: some scenarios may hand frames over through ProcessFrame
 }
 
 // genRecScenario draws a recorder-focused scenario. focus biases the generator
@@ -95,6 +96,14 @@ func genRecScenario(r *verifsim.Run, focus string) *aScenario {
 	c.MaxS = c.MinS + r.Draw(4)
 	if focus == "C03" && r.Chance(1, 2) {
 		c.MaxS = c.MinS + r.Draw(2)
+	}
+	if (focus == "C03" || focus == "C01") && r.Chance(1, 30) {
+		// hours-long max-secs (legal): max-secs*fps just past 2^16 or 2^31 - frame counts are plain ints
+		k := r.Draw(8)
+		c.Fps = []int{9, 9, 5, 3, 2, 1, 9, 3}[k]
+		c.MaxS = []int{7282, 7290, 13108, 21846, 32769, 65540, 238609295, 715827883}[k]
+		c.Preview = r.Draw(2)
+		r.Probe("stratum-very-long-max-secs")
 	}
 	c.W = r.Range(4, 8)
 	c.H = r.Range(4, 6)
@@ -259,6 +268,9 @@ type aWorld struct {
 	kind      map[int]byte
 	tels      map[int]zz.Tel
 	shadow    *motionDetector
+	// frames are handed over through ProcessFrame (one re-used Frame object) instead of Process(raw bytes)
+	viaProcessFrame bool
+	src             *cptvframe.Frame
 }
 
 func newAWorld(sc *aScenario, opt aOpts) *aWorld {
@@ -308,6 +320,14 @@ func newAWorld(sc *aScenario, opt aOpts) *aWorld {
 	w.shadow = NewMotionDetector(mc, rc.PreviewSecs*w.cam.FPS(), w.cam)
 	w.upMs = 60000
 	w.lastFFCMs = 1000
+	// one scenario in five without bad frames takes the ProcessFrame road
+	// (ProcessFrame serves neither the continuous nor the test recorder and cannot refuse a frame)
+	w.viaProcessFrame = opt.AllowProcessFrame && !c.Cont && verifsim.HashString(fmt.Sprintf("%+v|%d", sc.Cfg, len(sc.Ev)))%5 == 0
+	for i := range sc.Ev {
+		if sc.Ev[i].Kind == 'B' || sc.Ev[i].Kind == 'T' {
+			w.viaProcessFrame = false
+		}
+	}
 	return w
 }
 
@@ -427,9 +447,24 @@ func (w *aWorld) exec(opt aOpts) *zz.Trace {
 				w.sent[id] = pix
 				w.kind[id] = e.Kind
 				w.tels[id] = tel
-				zz.PutLeptonTelemetry(raw, tel)
-				zz.PutLeptonPixels(raw, pix)
-				err := w.mp.Process(raw)
+				var err error
+				if w.viaProcessFrame {
+					// the exported entry point for already parsed frames; the caller re-uses one Frame object
+					// (as the project's CPTV playback tester does): the processor must keep its own copy
+					if w.src == nil {
+						w.src = cptvframe.NewFrame(w.cam)
+					}
+					for y := range pix {
+						copy(w.src.Pix[y], pix[y])
+					}
+					w.src.Status = cptvframe.Telemetry{TimeOn: tel.TimeOn(), LastFFCTime: tel.LastFFCTime(), FrameCount: int(tel.FrameCount),
+						FrameMean: tel.FrameMean, TempC: tel.TempC(), LastFFCTempC: tel.LastFFCTempC()}
+					w.mp.ProcessFrame(w.src)
+				} else {
+					zz.PutLeptonTelemetry(raw, tel)
+					zz.PutLeptonPixels(raw, pix)
+					err = w.mp.Process(raw)
+				}
 				switch err.(type) {
 				case nil:
 					ev.Ord = w.ord
@@ -467,8 +502,11 @@ func runARec(r *verifsim.Run) {
 	c := &sc.Cfg
 	r.Set("cfg", fmt.Sprintf("%dx%d@%dfps edge%d preview%ds min%ds max%ds trig%d exact=%v window=%v[%s-%s] cont=%v", c.W, c.H, c.Fps, c.Edge, c.Preview, c.MinS, c.MaxS, c.Trig, c.Exact, !c.NoWindow, hhmm(c.WinStart), hhmm(c.WinStop), c.Cont))
 	r.Set("events", evString(sc.Ev))
-	w := newAWorld(sc, aOpts{SkipEv: -1})
+	w := newAWorld(sc, aOpts{SkipEv: -1, AllowProcessFrame: true})
 	tr := w.exec(aOpts{SkipEv: -1})
+	if w.viaProcessFrame {
+		r.Probe("frames-handed-over-through-ProcessFrame")
+	}
 	r.SimTime(w.clock.T.Sub(sc.Start))
 	r.Count("frames", w.nextID)
 	for i := range tr.Ev {
@@ -483,6 +521,25 @@ func runARec(r *verifsim.Run) {
 		for k, n := range s.Fired {
 			for i := 0; i < n; i++ {
 				r.Fault(k)
+			}
+		}
+	}
+	// a frame written to the motion sink is the frame that was received under that number, pixel for pixel
+	// (the processor keeps its own copy of whatever the caller hands over)
+	for i := range tr.Ev {
+		for _, cl := range tr.Ev[i].Calls[zz.SinkMotion] {
+			if cl.Op != 'W' {
+				continue
+			}
+			if pix, ok := w.sent[cl.ID]; ok && zz.SumPix(pix) != cl.Sum {
+				what, prop, rule := "a frame of the recording", "C01", "C01.content"
+				if i < len(tr.Ev) && tr.Ev[i].ID != cl.ID {
+					what, prop, rule = "a pre-trigger frame", "C02", "C02.content"
+				}
+				r.Violate(prop, rule, "pixels", "%s (frame id %d, written while event %d was processed) reached the recorder with pixels other than those received under that number", what, cl.ID, i)
+				if r.Failed() {
+					return
+				}
 			}
 		}
 	}
